@@ -1,6 +1,7 @@
 """C18: bitset, array, PRNGs and sort agree with their standard references."""
 import sys
 import vlib
+from comp.cxxleaf import check as cxxleaf
 from comp.bits import check as bits
 
 def main():
@@ -9,7 +10,9 @@ def main():
     c.trusted = ["Coq 8.16.1 kernel (coqc; vm_compute only in Examples)"] + bits.TRUSTED
     c.assumptions = bits.ASSUMPTIONS
     c.kind_filter = lambda k: k not in vlib.LIFETIME_KINDS
-    c.prove()
+    cxxleaf.run(c, ["bits"])      # leaf functions re-translated from the current source (translator tie)
+    c.trusted = c.trusted + cxxleaf.TRUSTED
+    c.prove(["C18"] + cxxleaf.prop_ids(["bits"]))
     bits.run(c)
     sys.exit(c.finish())
 
